@@ -14,13 +14,13 @@
      parse_msg / parse_contact / parse_frame ph  the probe of Messenger.recv_raw
         (ph = _in_conn): Some (frame, remaining octets) iff a complete frame is
         at the front of the buffer;
-     rx_loop / rx_recv St phase handle           the while-loop of recv_raw for
+     rx_loop / rx_recv St phase alive handle           the while-loop of recv_raw for
         ANY handler [handle] (recv_message) over ANY state [St] with phase
         projection [phase]; one rx_recv = one recv_raw(chunk);
      rx_log_recv                                 the same with the logging
-        handler (state = (_in_conn, frames acted on so far); _in_conn is set,
-        as in recv_message, by a contact header with magic "dtn!" and version 4:
-        contact_ok).
+        handler (state = ((_in_conn, open), frames acted on so far); as in
+        recv_message a contact header with magic "dtn!" and version 4
+        (contact_ok) sets _in_conn, any other one closes the connection).
    The field layout in encode_msg/parse_msg is RFC 9174 sections 4.1, 4.7,
    5.1.1, 5.1.2, 5.2.2-5.2.5, 6.1.  The harness carries a second, independent
    decoder/encoder written with plain [struct] from the same RFC sections and
@@ -55,27 +55,27 @@ Local Open Scope N_scope.
         and state, the state reached and the octets kept after a sequence of
         reads depend only on the concatenation of the reads *)
 Theorem C07_split_invariance :
-  forall (St : Type) (phase : St -> bool) (handle : St -> frame -> St)
+  forall (St : Type) (phase alive : St -> bool) (handle : St -> frame -> St)
          (chunks : list bytes) (c : bytes) (st : St * bytes),
-    fold_left (rx_recv St phase handle) chunks (rx_recv St phase handle st c)
-    = rx_recv St phase handle st (c ++ concat chunks).
+    fold_left (rx_recv St phase alive handle) chunks (rx_recv St phase alive handle st c)
+    = rx_recv St phase alive handle st (c ++ concat chunks).
 Proof. exact rx_split_invariance. Qed.
 Print Assumptions C07_split_invariance.
 
 Theorem C07_two_reads_are_one :
-  forall (St : Type) (phase : St -> bool) (handle : St -> frame -> St)
+  forall (St : Type) (phase alive : St -> bool) (handle : St -> frame -> St)
          (st : St * bytes) (c1 c2 : bytes),
-    rx_recv St phase handle (rx_recv St phase handle st c1) c2 = rx_recv St phase handle st (c1 ++ c2).
+    rx_recv St phase alive handle (rx_recv St phase alive handle st c1) c2 = rx_recv St phase alive handle st (c1 ++ c2).
 Proof. exact rx_recv_recv. Qed.
 Print Assumptions C07_two_reads_are_one.
 
 (* ---- two ways of cutting the same stream: same frames acted on (in the same
         order, by the logging handler: literally the same log), same octets kept *)
 Theorem C07_stream_only :
-  forall (St : Type) (phase : St -> bool) (handle : St -> frame -> St)
+  forall (St : Type) (phase alive : St -> bool) (handle : St -> frame -> St)
          (chunks1 chunks2 : list bytes) (s : St),
     concat chunks1 = concat chunks2 ->
-    fold_left (rx_recv St phase handle) chunks1 (s, []) = fold_left (rx_recv St phase handle) chunks2 (s, []).
+    fold_left (rx_recv St phase alive handle) chunks1 (s, []) = fold_left (rx_recv St phase alive handle) chunks2 (s, []).
 Proof. exact rx_stream_only. Qed.
 Print Assumptions C07_stream_only.
 
@@ -83,14 +83,14 @@ Theorem C07_frames_acted_on_stream_only :
   forall (chunks1 chunks2 : list bytes),
     concat chunks1 = concat chunks2 ->
     fold_left rx_log_recv chunks1 rx_init = fold_left rx_log_recv chunks2 rx_init.
-Proof. exact (fun c1 c2 => rx_stream_only log_state log_phase log_handle c1 c2 (false, [])). Qed.
+Proof. exact (fun c1 c2 => rx_stream_only log_state log_phase log_alive log_handle c1 c2 ((false, true), [])). Qed.
 Print Assumptions C07_frames_acted_on_stream_only.
 Example C07_frames_acted_on_stream_only_nonvacuous :
   (* contact header, KEEPALIVE, SESS_TERM cut 4|3|1|2 and 1|9: same result, both frames logged *)
   fold_left rx_log_recv [[100;116;110;33]; [4;0;4]; [5]; [1;3]] rx_init
   = fold_left rx_log_recv [[100]; [116;110;33;4;0;4;5;1;3]] rx_init
   /\ fold_left rx_log_recv [[100]; [116;110;33;4;0;4;5;1;3]] rx_init
-     = ((true, [FContact (mkContact MAGIC 4 0); FMsg MKeepalive; FMsg (MSessTerm 1 3)]), []).
+     = (((true, true), [FContact (mkContact MAGIC 4 0); FMsg MKeepalive; FMsg (MSessTerm 1 3)]), []).
 Proof. split; vm_compute; reflexivity. Qed.
 
 (* ---- frames already acted on are never revised by later reads *)
@@ -99,6 +99,19 @@ Theorem C07_log_only_grows :
     exists more, snd (fst (rx_log_recv st c)) = snd (fst st) ++ more.
 Proof. exact rx_log_mono. Qed.
 Print Assumptions C07_log_only_grows.
+
+(* ---- once the handler has closed the connection nothing more is acted on:
+        later octets are only appended to the buffer *)
+Theorem C07_closed_inert :
+  forall (St : Type) (phase alive : St -> bool) (handle : St -> frame -> St)
+         (s : St) (buf c : bytes),
+    alive s = false -> rx_recv St phase alive handle (s, buf) c = (s, buf ++ c).
+Proof. exact rx_closed_inert. Qed.
+Print Assumptions C07_closed_inert.
+Example C07_closed_inert_nonvacuous :
+  (* bad magic: the header is handled (and closes), the KEEPALIVE behind it is not *)
+  rx_log_recv rx_init [100;116;110;63;4;0;4] = (((false, false), [FContact (mkContact [100;116;110;63] 4 0)]), [4]).
+Proof. vm_compute. reflexivity. Qed.
 
 (* ---- a strict prefix of a frame is left untouched (probe level) ... *)
 Theorem C07_prefix_untouched :
@@ -109,10 +122,10 @@ Print Assumptions C07_prefix_untouched.
 
 (* ---- ... and by the loop, for any handler: state and buffer unchanged *)
 Theorem C07_prefix_untouched_loop :
-  forall (St : Type) (phase : St -> bool) (handle : St -> frame -> St)
+  forall (St : Type) (phase alive : St -> bool) (handle : St -> frame -> St)
          (s : St) (f : frame) (p q : bytes),
     accepts (phase s) f -> encode_frame f = p ++ q -> q <> [] ->
-    rx_recv St phase handle (s, []) p = (s, p).
+    rx_recv St phase alive handle (s, []) p = (s, p).
 Proof. exact rx_prefix_untouched. Qed.
 Print Assumptions C07_prefix_untouched_loop.
 Example C07_prefix_untouched_nonvacuous :
@@ -129,16 +142,16 @@ Qed.
 (* ---- a complete frame is acted on in the read that delivers its final
         octet: p held in the buffer, q arrives, the frame is handled, nothing is kept *)
 Theorem C07_complete_acted_on :
-  forall (St : Type) (phase : St -> bool) (handle : St -> frame -> St)
+  forall (St : Type) (phase alive : St -> bool) (handle : St -> frame -> St)
          (s : St) (f : frame) (p q : bytes),
-    accepts (phase s) f -> encode_frame f = p ++ q ->
-    rx_recv St phase handle (s, p) q = (handle s f, []).
+    alive s = true -> accepts (phase s) f -> encode_frame f = p ++ q ->
+    rx_recv St phase alive handle (s, p) q = (handle s f, []).
 Proof. exact rx_complete_acted_on. Qed.
 Print Assumptions C07_complete_acted_on.
 Example C07_complete_acted_on_nonvacuous :
   (* a lone KEEPALIVE octet is complete; the last octet of a contact header completes it *)
-  rx_log_recv ((true, []), []) [4] = ((true, [FMsg MKeepalive]), [])
-  /\ rx_log_recv ((false, []), [100;116;110;33;4]) [1] = ((true, [FContact (mkContact MAGIC 4 1)]), []).
+  rx_log_recv (((true, true), []), []) [4] = (((true, true), [FMsg MKeepalive]), [])
+  /\ rx_log_recv (((false, true), []), [100;116;110;33;4]) [1] = (((true, true), [FContact (mkContact MAGIC 4 1)]), []).
 Proof. split; vm_compute; reflexivity. Qed.
 
 (* ---- trailing octets are kept for the next message (probe level) *)
@@ -166,10 +179,10 @@ Print Assumptions C07_probe_stable.
 
 (* ---- a well-formed stream: every frame is handled, in order, nothing is left *)
 Theorem C07_stream :
-  forall (St : Type) (phase : St -> bool) (handle : St -> frame -> St)
+  forall (St : Type) (phase alive : St -> bool) (handle : St -> frame -> St)
          (fs : list frame) (s : St),
-    rx_consistent St phase handle s fs ->
-    rx_recv St phase handle (s, []) (concat (map encode_frame fs)) = (fold_left handle fs s, []).
+    rx_consistent St phase alive handle s fs ->
+    rx_recv St phase alive handle (s, []) (concat (map encode_frame fs)) = (fold_left handle fs s, []).
 Proof. exact rx_stream. Qed.
 Print Assumptions C07_stream.
 
@@ -177,7 +190,7 @@ Theorem C07_stream_log :
   forall (c : contact) (ms : list msg),
     wf_contact c -> contact_ok c = true -> Forall wf_msg ms ->
     rx_log_recv rx_init (concat (map encode_frame (FContact c :: map FMsg ms)))
-    = ((true, FContact c :: map FMsg ms), []).
+    = (((true, true), FContact c :: map FMsg ms), []).
 Proof. exact rx_log_stream. Qed.
 Print Assumptions C07_stream_log.
 
@@ -192,7 +205,7 @@ Theorem C07_any_cut :
     encode_frame f = q ++ q' -> q' <> [] ->
     concat chunks = concat (map encode_frame fs1) ++ q ->
     fold_left rx_log_recv chunks rx_init
-    = ((match fs1 with [] => false | _ => true end, fs1), q).
+    = (((match fs1 with [] => false | _ => true end, true), fs1), q).
 Proof. exact rx_log_any_cut. Qed.
 Print Assumptions C07_any_cut.
 
@@ -200,7 +213,7 @@ Theorem C07_any_cut_all :
   forall (c : contact) (ms : list msg) (chunks : list bytes),
     wf_contact c -> contact_ok c = true -> Forall wf_msg ms ->
     concat chunks = concat (map encode_frame (FContact c :: map FMsg ms)) ->
-    fold_left rx_log_recv chunks rx_init = ((true, FContact c :: map FMsg ms), []).
+    fold_left rx_log_recv chunks rx_init = (((true, true), FContact c :: map FMsg ms), []).
 Proof. exact rx_log_any_cut_all. Qed.
 Print Assumptions C07_any_cut_all.
 
